@@ -428,7 +428,7 @@ V({
         "V11: the bound variable indexes an existing binder (binders.at), caller's obligation",
         "V11: the oracle tables (sized_rule / copy_rule) are transcribed from the Rust reference; explicit library impls and how they combine with built-in clauses are the solver's business",
     ],
-    "trusted": ["chalk-solve builtin_traits helpers (needs_impl_for_tys, last_field_of_struct)"],
+    "trusted": ["chalk-solve builtin_traits::needs_impl_for_tys (iterator map); last_field_of_struct is a callee contract here and verified in V33"],
 })
 
 # --------------------------------------------------------------------------- V9
@@ -690,7 +690,7 @@ V({
         "V29: RustIrDatabase::adt_datum (neighbourhood API, not called by the pinned text) returns an uninterpreted datum per ADT id; AdtDatum / AdtFlags / AdtKind are the extracted definitions, AdtDatumBound is opaque",
         "V29: a change that filters the iterator with an adaptor (Option::filter, Iterator::filter) makes the unit UNDECIDED, not a violation",
     ],
-    "trusted": ["chalk-ir Substitution (abstract)", "builtin_traits::{last_field_of_struct, needs_impl_for_tys}"],
+    "trusted": ["chalk-ir Substitution (abstract)", "builtin_traits::needs_impl_for_tys (last_field_of_struct: callee contract here, verified in V33)"],
 })
 
 # -------------------------------------------------------------------------- V34
